@@ -91,9 +91,28 @@ def synth(fn, variant, skip_first=0):
             args[name] = v.copy() if isinstance(v, np.ndarray) else v
         elif par.default is not inspect._empty:
             continue
+        elif getattr(fn, "__name__", "") in ("circle", "ellipse") and name in ("center", "phi"):
+            continue
         else:
             return None
-    # euclidean/rmse take same-shaped x, y; chordal etc. fine; frames x/y/z scalars:
+    # per-callable corrections of the name table (same names, different meaning)
+    fname = getattr(fn, "__qualname__", getattr(fn, "__name__", ""))
+    if fname == "q_correct":
+        args["q"] = np.array([g_unit(U1), -g_unit(U2), g_unit((2, -1, 0, 3))]) * (1.0 if variant == 0 else 3.5)
+    if fname in ("circle", "ellipse"):
+        args["center"] = np.array([1.0, -2.0]) * (1.0 if variant == 0 else 3.5)
+        if fname == "ellipse":
+            args["phi"], args["axes"] = 0.4, np.array([2.0, 1.0])
+    if fname in ("Quaternion.from_angles", "Quaternion.from_rpy") and variant == 1:
+        args["angles"] = np.array([3.0, -1.5, 6.0])
+    if fname == "QuaternionArray.average" and "weights" in args:
+        args["weights"] = np.array([1.0, 2.0, 0.5]) * (1.0 if variant == 0 else 3.5)
+    if fname == "QuaternionArray.rotate_by":
+        args["order"] = "H"      # order="S" raises AxisError for every 4-vector on the pinned tree (np.roll(q, -1, axis=1) on a 1-D q): outside the listed properties, noted in DESIGN 8.6
+    if fname in ("AngularRate.update",):
+        args["method"] = "closed"
+    if fname in ("FLAE.estimate",):
+        args["method"] = "eig"
     return args
 
 
@@ -104,10 +123,12 @@ def frames_args(fn, variant):
     sig = inspect.signature(fn)
     args = {}
     for name, par in sig.parameters.items():
-        if name in T and T[name] is not None and not isinstance(T[name], np.ndarray):
+        if name == "x" and fn.__name__ in ("ned2enu", "enu2ned", "_ltp_transformation"):
+            args[name] = np.array([1.0, 2.0, 3.0]) if variant == 0 else np.array([[1.0, 2.0, 3.0], [-4.0, 0.5, 6.0]])
+        elif fn.__name__ == "eci2ecef" and name in ("w", "t"):
+            args[name] = {"w": 7.292115e-5, "t": 1234.5}[name]
+        elif name in T and T[name] is not None and not isinstance(T[name], np.ndarray):
             args[name] = T[name]
-        elif name == "x" and fn.__name__ in ("ned2enu", "enu2ned", "_ltp_transformation"):
-            args[name] = np.array([1.0, 2.0, 3.0])
         elif par.default is not inspect._empty:
             continue
         else:
@@ -160,11 +181,20 @@ def catalogue():
                 if mname == "metrics" and "x" in args and "y" in args:
                     pass
                 items.append(("%s.%s[%d]" % (mname, name, variant), (lambda a, fn=fn: fn(**a)), args))
+            # N-row form of the functions that have one
+            if mname == "metrics" and name in ("chordal", "qdist", "qeip", "qcip", "qad"):
+                T0 = gen_table(0)
+                if name == "chordal":
+                    args = {"R1": np.array([T0["R1"], T0["R2"]]), "R2": np.array([T0["R2"], T0["R1"]])}
+                else:
+                    args = {"q1": np.array([T0["q"], T0["p"], T0["q"]]) * 2.0, "q2": np.array([T0["p"], T0["p"], -T0["q"]]) * 0.5}
+                items.append(("%s.%s[N-row]" % (mname, name), (lambda a, fn=fn: fn(**a)), args))
     for name, fn in inspect.getmembers(FRM, inspect.isfunction):
         if fn.__module__ != FRM.__name__ or name.startswith("_"):
             continue
-        args = frames_args(fn, 0)
-        items.append(("frames.%s" % name, (lambda a, fn=fn: fn(**a)) if args is not None else None, args))
+        for variant in ((0, 1) if name in ("ned2enu", "enu2ned") else (0,)):
+            args = frames_args(fn, variant)
+            items.append(("frames.%s%s" % (name, "[%d]" % variant if variant else ""), (lambda a, fn=fn: fn(**a)) if args is not None else None, args))
     # classes: constructor + every public method / property
     T0 = gen_table(0)
     ctor = {"Quaternion": (QUA.Quaternion, {"q": T0["q"] * 2.0}), "QuaternionArray": (QUA.QuaternionArray, {"q": T0["Angles"][:, :0].copy() if False else np.array([g_unit(U1), g_unit(U2), g_unit((2, -1, 0, 3))]) * 2.0}),
@@ -183,7 +213,7 @@ def catalogue():
                 items.append(("%s.%s" % (cname, name), (lambda a, name=name: getattr(a["self"], name)), {"self": cls(**{k: (v.copy() if isinstance(v, np.ndarray) else v) for k, v in cargs.items()})}))
             elif inspect.isfunction(member) or inspect.ismethod(member):
                 for variant in (0, 1):
-                    margs = synth(member, variant, skip_first=1)
+                    margs = synth(member, variant, skip_first=0 if inspect.ismethod(member) else 1)
                     if margs is None:
                         items.append(("%s.%s" % (cname, name), None, None))
                         continue
@@ -207,10 +237,15 @@ def catalogue():
                 cargs[pn] = hist[pn]
         if cname == "TRIAD":
             cargs = {"w1": hist["acc"], "w2": hist["mag"], "v1": np.array([0.0, 0.0, 1.0]), "v2": np.array([1.0, 0.0, 2.0])}
-        extra = {"Madgwick": {"q0": T0["q"] * 2.0}, "Mahony": {"q0": T0["q"].copy(), "b0": np.array([0.01, -0.02, 0.03])}, "EKF": {"q0": T0["q"].copy(), "P": np.identity(4) * 0.5},
-                 "UKF": {"q0": T0["q"].copy()}, "AQUA": {"q0": T0["q"].copy()}, "ROLEQ": {"q0": T0["q"].copy(), "weights": np.array([1.0, 2.0])},
+        mref = np.array([21.0, 1.5, 43.9])
+        extra = {"Madgwick": {"q0": T0["q"] * 2.0}, "Mahony": {"q0": T0["q"].copy(), "b0": np.array([0.01, -0.02, 0.03])},
+                 "EKF": {"q0": T0["q"].copy(), "P": np.identity(4) * 0.5, "noises": np.array([0.09, 0.25, 0.64]), "magnetic_ref": mref.copy()},
+                 "UKF": {"q0": T0["q"].copy(), "P": np.identity(4) * 0.02, "process_noise_covariance": np.identity(4) * 2e-4,
+                         "measurement_noise_covariance": np.identity(3) * 0.02},
+                 "AQUA": {"q0": T0["q"].copy()}, "ROLEQ": {"q0": T0["q"].copy(), "weights": np.array([1.0, 2.0]), "magnetic_ref": mref.copy()},
                  "Complementary": {"w0": T0["angles"].copy()}, "AngularRate": {"q0": T0["q"].copy()}, "FLAE": {"weights": np.array([1.0, 2.0])},
-                 "OLEQ": {"weights": np.array([1.0, 2.0])}, "Davenport": {"weights": np.array([1.0, 2.0])}, "QUEST": {"weights": np.array([1.0, 2.0])},
+                 "OLEQ": {"weights": np.array([1.0, 2.0]), "magnetic_ref": mref.copy()}, "Davenport": {"weights": np.array([1.0, 2.0])},
+                 "QUEST": {"weights": np.array([1.0, 2.0])},
                  "FQA": {"mag_ref": np.array([1.0, 0.0, 2.0])}, "Fourati": {"q0": T0["q"].copy()}}.get(cname, {})
         cargs = dict(cargs, **extra)
 
@@ -234,6 +269,37 @@ def catalogue():
                 obj = cls(v1=np.array([0.0, 0.0, 1.0]), v2=np.array([1.0, 0.0, 2.0])) if cname == "TRIAD" else cls()
                 return getattr(obj, mname)(**a)
             items.append(("%s.%s" % (cname, mname), callm, margs))
+            # an object BUILT with the caller's option arrays (no data), then one single-sample call: the option arrays stay as they were
+            arr_opts = {k: v for k, v in extra.items() if isinstance(v, np.ndarray)}
+            if arr_opts and cname != "TRIAD":
+                margs3 = dict(margs)
+                margs3.update({"ctor_" + k: v.copy() for k, v in arr_opts.items()})
+
+                def callm3(a, cls=cls, mname=mname):
+                    np.random.seed(3)
+                    obj = cls(**{k[5:]: v for k, v in a.items() if k.startswith("ctor_")})
+                    return getattr(obj, mname)(**{k: v for k, v in a.items() if not k.startswith("ctor_")})
+                items.append(("%s(%s).%s" % (cname, ", ".join(sorted(arr_opts)), mname), callm3, margs3))
+            # ONE object asked twice: estimators whose single-sample methods carry no state between calls (Mahony's bias and the
+            # Kalman covariances are carried by design; OLEQ starts from a random quaternion) must answer the same again
+            if cname not in ("Mahony", "EKF", "UKF", "OLEQ"):
+                for variant, opts in ((0, {}), (1, {"adaptive": True} if cname == "AQUA" else {})):
+                    margs2 = synth(m, variant, skip_first=1)
+                    if margs2 is None:
+                        continue
+                    if cname == "TRIAD":
+                        margs2 = {"w1": gen_table(variant)["acc"].copy(), "w2": gen_table(variant)["mag"].copy()}
+                    if opts.get("adaptive") and "acc" in margs2:
+                        # a "dynamic" sample: magnitude error between the two thresholds (0.1, 0.2) of the adaptive gain
+                        from ahrs.filters.aqua import GRAVITY as AQUA_G     # the module's own reference magnitude
+                        margs2["acc"] = margs2["acc"] / np.linalg.norm(margs2["acc"]) * AQUA_G * 1.15
+                    holder = {}
+
+                    def calls(a, cls=cls, mname=mname, cname=cname, opts=opts, holder=holder):
+                        if "obj" not in holder:
+                            holder["obj"] = cls(v1=np.array([0.0, 0.0, 1.0]), v2=np.array([1.0, 0.0, 2.0])) if cname == "TRIAD" else cls(**opts)
+                        return getattr(holder["obj"], mname)(**a)
+                    items.append(("%s.%s[one object, %s]" % (cname, mname, "defaults" if not opts else ",".join("%s=%s" % kv for kv in opts.items())) + ("[%d]" % variant), calls, margs2))
     return items
 
 
